@@ -123,7 +123,7 @@ def run(ctx, ck):
                                 idx = p_.args.index(n)
                                 sub = []
                                 for g_, bound in gs:
-                                    ps = g_.params[1:] if g_.cls is not None else g_.params
+                                    ps = g_.bound_params()
                                     if idx < len(ps):
                                         sub += tag_uses(g_, ps[idx], depth + 1, seen)
                                 out += sub
@@ -149,9 +149,11 @@ def run(ctx, ck):
     forms = {}
     direct = len(regs) == 2
     for c in regs:
-        guards = if_chain_preds(fl.cfg, fl.node_id_of(c))
-        tagged = any(t == 'geo_tag is not None' and b for t, b in guards)
         arg = fl.inline(c.args[1], fl.node_id_of(c)) if len(c.args) > 1 else None
+        # tagged form = the registered index depends on the tag (independent of how the two forms
+        # are laid out: if/else, early return, ...)
+        r_arg = fl.roots(c.args[1], fl.node_id_of(c)) if len(c.args) > 1 else set()
+        tagged = ('param', 'geo_tag') in r_arg
         if not direct:
             # index computed by a helper: it must at least derive from the pulse number given; the
             # helper's list accesses are judged by R-BOUNDS.pulse-index
@@ -219,22 +221,26 @@ def run(ctx, ck):
             if isinstance(l, ast.For) and 'pulse_idx_iter' in norm(l.iter) and isinstance(l.target, ast.Name):
                 loopvars.add(l.target.id)
         seen = set()
-        for arg, modn in format_args(f_, ctx.flow(f_)):
+        from ..fmt import printed_values
+        for spec_, arg, modn in printed_values(f_, ctx.flow(f_)):
+            if arg is None:
+                continue
             zs = zero_based_reads(arg, loopvars)
             if not zs:
                 continue
-            # load.n of Geobj (`self.n` inside Geobj/Wire writers) is a position too
             key = '%s|%s' % (f_.qual, norm(arg))
             if key in seen:
                 continue
             seen.add(key)
-            ok = is_plus_one(arg) and len(zero_based_reads(arg.left, loopvars)) >= 1 and \
-                not any(is_plus_one(x) or is_minus_one(x) for x in ast.walk(arg.left))
+            # a local temporary holding `x + 1` is fine: resolve it
+            a2 = ctx.flow(f_).inline(arg, ctx.flow(f_).node_id_of(modn), depth=2) if isinstance(arg, ast.Name) else arg
+            ok = is_plus_one(a2) and len(zero_based_reads(a2.left, loopvars)) >= 1 and \
+                not any(is_plus_one(x) or is_minus_one(x) for x in ast.walk(a2.left))
             ck.ob('R-KIND.one-based-out', key, ok, f_.loc(modn),
                   'prints %s' % norm(arg) if ok else
                   'prints the 0-based number %s without exactly one `+ 1`' % norm(arg))
             n_out += 1
-    ck.floor('printed 0-based numbers', n_out, 14)
+    ck.floor('printed 0-based numbers', n_out, 10)
 
     # ---------------------------------------------------------------- D2 input
     mainf = m.func('mininec.main')
